@@ -13,10 +13,12 @@ print("| id | what it needs in order to manifest | reported by |")
 print("|---|---|---|")
 for d in sorted(glob.glob(V + "/seeded/*/meta.json")):
     m = json.load(open(d))
-    print(f"| {m['property']} | {m['needs_to_manifest']} | {', '.join(m.get('detected_by', [])) or '(not yet run)'} |")
+    print(f"| {os.path.basename(os.path.dirname(d))} | {m['needs_to_manifest']} | {', '.join(m.get('detected_by', [])) or '(not yet run)'} |")
 print("\n#### Evidence of the last run (from evidence/*.json)\n")
 print("| property | theorems pinned | records | tier | wall s |")
 print("|---|---|---|---|---|")
 for f in sorted(glob.glob(V + "/evidence/C??.json")):
     e = json.load(open(f)); c = e["coverage"]
     print(f"| {e['property_id']} | {c.get('discharged')} | {c.get('evaluations')} | {e['tier']} | {e['wall_s']} |")
+
+# `--splice`: rewrite DESIGN.md section 10.7 in place (10.7 is the last section of the file)
